@@ -43,11 +43,13 @@ pub fn run(cx: &mut Cx) {
         ("sort_attr", "{% for e in xs | sort(attribute='k') %}{{ e.id }},{% endfor %}"),
         ("sort_path", "{% for e in ys | sort(attribute='n.k') %}{{ e.id }},{% endfor %}"),
         ("sort_tuple", "{% for e in zs | sort(attribute='t.1') %}{{ e.id }},{% endfor %}"),
+        ("sort_digitkeys", "{% for e in ws | sort(attribute='1st.2024_total.99999999999999999999999') %}{{ e.id }},{% endfor %}"),
         ("sort_plain", "{{ ks | sort }}"),
         ("uniq", "{{ ks | unique }}"),
         ("uniq_ids", "{% for e in xs | unique %}{{ e.id }},{% endfor %}"),
         ("grp", "{% for k, g in xs | group_by(attribute='k') %}{{ k }}=[{% for e in g %}{{ e.id }},{% endfor %}]\u{1}{% endfor %}"),
         ("grp_path", "{% for k, g in ys | group_by(attribute='n.k') %}{{ k }}=[{% for e in g %}{{ e.id }},{% endfor %}]\u{1}{% endfor %}"),
+        ("grp_digitkeys", "{% for k, g in ws | group_by(attribute='1st.2024_total.99999999999999999999999') %}{{ k }}=[{% for e in g %}{{ e.id }},{% endfor %}]\u{1}{% endfor %}"),
         ("misc", "{{ ks | first == ks | nth(n=0) }}|{{ ks | last == ks | reverse | first }}|{{ ks | reverse | reverse == ks }}|{{ ks | length }}|{{ ks | reverse | length }}|{{ ks | first == ks[0] }}|{{ ks | last == ks[-1] }}"),
         ("nth", "{{ ks | nth(n=n) == ks[n] | default(value=none) }}|{{ ks | nth(n=n) is none }}"),
         ("join", "{{ ks | join(sep=sep) }}"),
@@ -82,6 +84,8 @@ pub fn run(cx: &mut Cx) {
                             match shape {
                                 0 => m.push((K::Str("k".into()), k.clone())),
                                 1 => m.push((K::Str("n".into()), V::Map(vec![(K::Str("k".into()), k.clone())]))),
+                                // map keys that start with a digit without being array indices
+                                3 => m.push((K::Str("1st".into()), V::Map(vec![(K::Str("2024_total".into()), V::Map(vec![(K::Str("99999999999999999999999".into()), k.clone())]))]))),
                                 _ => m.push((K::Str("t".into()), V::Arr(vec![V::I64(0), k.clone()]))),
                             }
                         }
@@ -95,6 +99,7 @@ pub fn run(cx: &mut Cx) {
         ctx.insert_value("xs", elems(0).to_tera());
         ctx.insert_value("ys", elems(1).to_tera());
         ctx.insert_value("zs", elems(2).to_tera());
+        ctx.insert_value("ws", elems(3).to_tera());
         ctx.insert_value("ks", V::Arr(keys.clone()).to_tera());
         let any_missing = missing.iter().any(|m| *m);
         let len_class = match len { 0 => "0", 1 => "1", 2..=20 => "small", 21..=40 => "merge", _ => "large" };
@@ -126,7 +131,7 @@ pub fn run(cx: &mut Cx) {
 
         // ---------------- sort by attribute (three attribute shapes must agree)
         let mut sorted_ids: Option<Vec<usize>> = None;
-        for (ti, tpl) in ["sort_attr", "sort_path", "sort_tuple"].iter().enumerate() {
+        for (ti, tpl) in ["sort_attr", "sort_path", "sort_tuple", "sort_digitkeys"].iter().enumerate() {
             let Some(r) = render!(tpl, &ctx) else { continue };
             cx.cell(format!("{tpl}|{kindmix}|{len_class}|{}", if r.is_ok() { "ok" } else { "err" }));
             match r {
@@ -231,7 +236,7 @@ pub fn run(cx: &mut Cx) {
         }
         // ---------------- group_by
         let groupable = nn.iter().all(|k| matches!(model::class(k), "str" | "bool") || k.is_int());
-        for tpl in ["grp", "grp_path"] {
+        for tpl in ["grp", "grp_path", "grp_digitkeys"] {
             let Some(r) = render!(tpl, &ctx) else { continue };
             cx.cell(format!("{tpl}|{kindmix}|{len_class}|{}", if r.is_ok() { "ok" } else { "err" }));
             match r {
